@@ -1,0 +1,10 @@
+//go:build verif && amd64
+// +build verif,amd64
+
+package native
+
+// VerifUseAVX2 re-points the dispatch table at the AVX2 routines.
+func VerifUseAVX2() { useAVX2() }
+
+// VerifUseSSE re-points the dispatch table at the SSE routines.
+func VerifUseSSE() { useSSE() }
